@@ -670,8 +670,8 @@ def case(ctx, rng, idx, state):
 if __name__ == "__main__":
     harness.main(
         PROP, "exploration", case, setup_fn=setup,
-        tiers=dict(quick=dict(cases=128, shards=8, time=100), thorough=dict(cases=2560, shards=16, time=1100)),
-        rule="all 32 crystallographic point groups (cycled by case index, so each is built >=3 times in the quick tier) x "
+        tiers=dict(quick=dict(cases=256, shards=8, time=100), thorough=dict(cases=4800, shards=16, time=540)),
+        rule="all 32 crystallographic point groups (cycled by case index, so each is built 7 times in the quick tier) x "
              "{ordinary, gray, black-white} x alternative/redundant/shuffled generator lists x {standard frame via strings, "
              "random SO(3) frame via Rotation/Mirror, via explicit matrices} x compatible Bravais lattices (own family or "
              "higher symmetry, real or reciprocal input); every 8th case PointGroup(spacegroup=) of a catalogue structure. "
